@@ -101,8 +101,8 @@ def execute(ctx, scn, events, tids, next_tid, data=None):
     else:
         p = subprocess.run(
             core.cli_cmd("image", "update", "--input-file", inp, "--storage-output-file", st,
-                         "--dfu-partition-output-file", pf, "--update-candidate-info-address", hex(scn["uci"]),
-                         "--dfu-partition-address", str(scn["part"]), "--dfu-max-caches", scn["caches"]),
+                         "--dfu-partition-output-file", pf, "--update-candidate-info-address", core.num(scn["uci"]),
+                         "--dfu-partition-address", core.num(scn["part"]), "--dfu-max-caches", scn["caches"]),
             cwd=d, env=core.cli_env(), capture_output=True, text=True)
         if p.returncode:
             err = p.stderr[-300:]
